@@ -5,7 +5,7 @@
   helper increments its counter exactly once and, on the tracked and open connection, writes exactly one
   message of that type; nothing else touches a send counter of the tracked connection.
 -/
-import Yabgp.Props.C13
+import Yabgp.Lemmas.Stopped
 
 namespace Yabgp
 open Sess
